@@ -485,109 +485,72 @@ class IncrementalEncoder(codecs.IncrementalEncoder):
 
 
 class StreamWriter(codecs.StreamWriter):
+    """Writes through a css :class:`IncrementalEncoder`, which keeps an
+    undecided ``@charset`` header and the state of a stateful encoding between
+    the pieces written (the stateless encode of the real encoding's writer
+    could not)."""
+
     def __init__(self, stream, errors="strict", encoding=None, header=False):
+        self._encoder = IncrementalEncoder(errors, encoding)
         codecs.StreamWriter.__init__(self, stream, errors)
-        self.streamwriter = None
-        self.encoding = encoding
-        self._errors = errors
-        self.buffer = ""
+
+    encoding = property(
+        lambda self: self._encoder.encoding,
+        lambda self, encoding: setattr(self._encoder, "encoding", encoding),
+    )
 
     def encode(self, input, errors="strict"):
-        li = len(input)
-        if self.streamwriter is None:
-            input = self.buffer + input
-            li = len(input)
-            if self.encoding is not None:
-                # Replace encoding in the @charset rule with the specified one
-                encoding = self.encoding
-                if encoding.replace("_", "-").lower() == "utf-8-sig":
-                    encoding = "utf-8"
-                newinput = _fixencoding(input, str(encoding), False)
-                if newinput is None:  # @charset rule incomplete => Retry next time
-                    self.buffer = input
-                    return (b"", 0)
-                input = newinput
-            else:
-                # Use encoding from the @charset declaration
-                self.encoding = detectencoding_unicode(input, False)[0]
-            if self.encoding is not None:
-                if self.encoding == "css":
-                    raise ValueError("css not allowed as encoding name")
-                self.streamwriter = _codecinfo(self.encoding).streamwriter(
-                    self.stream, self._errors
-                )
-                encoding = self.encoding
-                if self.encoding.replace("_", "-").lower() == "utf-8-sig":
-                    input = _fixencoding(input, "utf-8", True)
-                self.buffer = ""
-            else:
-                self.buffer = input
-                return (b"", 0)
-        return (self.streamwriter.encode(input, errors)[0], li)
+        self._encoder.errors = errors
+        return (self._encoder.encode(input, False), len(input))
+
+    def reset(self):
+        # (like the writers of stateful encodings: what is pending is written)
+        pending = self._encoder.encode("", True)
+        if pending:
+            self.stream.write(pending)
+        codecs.StreamWriter.reset(self)
+        self._encoder.reset()
 
     def _geterrors(self):
-        return self._errors
+        return self._encoder.errors
 
     def _seterrors(self, errors):
-        # Setting ``errors`` must be done on the streamwriter too
-        try:
-            if self.streamwriter is not None:
-                self.streamwriter.errors = errors
-        except AttributeError:
-            # TODO: py3 only exception?
-            pass
-
-        self._errors = errors
+        self._encoder.errors = errors
 
     errors = property(_geterrors, _seterrors)
 
 
 class StreamReader(codecs.StreamReader):
+    """Reads through a css :class:`IncrementalDecoder`, which keeps an
+    undecided header and an incomplete multi-byte sequence between the pieces
+    read."""
+
     def __init__(self, stream, errors="strict", encoding=None, force=True):
+        self._decoder = IncrementalDecoder(errors, encoding, force)
         codecs.StreamReader.__init__(self, stream, errors)
-        self.streamreader = None
-        self.encoding = encoding
-        self.force = force
-        self._errors = errors
+
+    encoding = property(
+        lambda self: self._decoder.encoding,
+        lambda self, encoding: setattr(self._decoder, "encoding", encoding),
+    )
+    force = property(
+        lambda self: self._decoder.force,
+        lambda self, force: setattr(self._decoder, "force", force),
+    )
 
     def decode(self, input, errors="strict"):
-        if self.streamreader is None:
-            if self.encoding is None or not self.force:
-                (encoding, explicit) = detectencoding_str(input, False)
-                if encoding is None:  # no encoding determined yet
-                    return ("", 0)  # no encoding determined yet, so no output
-                elif encoding == "css":
-                    raise ValueError("css not allowed as encoding name")
-                if (
-                    explicit and not self.force
-                ) or self.encoding is None:  # Take the encoding from the input
-                    self.encoding = encoding
-            streamreader = _codecinfo(self.encoding).streamreader
-            streamreader = streamreader(self.stream, self._errors)
-            (output, consumed) = streamreader.decode(input, errors)
-            encoding = self.encoding
-            if encoding.replace("_", "-").lower() == "utf-8-sig":
-                encoding = "utf-8"
-            newoutput = _fixencoding(output, str(encoding), False)
-            if newoutput is not None:
-                self.streamreader = streamreader
-                return (newoutput, consumed)
-            return ("", 0)  # we will create a new streamreader on the next call
-        return self.streamreader.decode(input, errors)
+        self._decoder.errors = errors
+        return (self._decoder.decode(input, False), len(input))
+
+    def reset(self):
+        codecs.StreamReader.reset(self)
+        self._decoder.reset()
 
     def _geterrors(self):
-        return self._errors
+        return self._decoder.errors
 
     def _seterrors(self, errors):
-        # Setting ``errors`` must be done on the streamreader too
-        try:
-            if self.streamreader is not None:
-                self.streamreader.errors = errors
-        except AttributeError:
-            # TODO: py3 only exception?
-            pass
-
-        self._errors = errors
+        self._decoder.errors = errors
 
     errors = property(_geterrors, _seterrors)
 
